@@ -301,3 +301,43 @@ func dumpStore(s blobserver.BlobEnumerator) ([]blob.SizedRef, error) {
 }
 
 var _ = bytes.Equal
+
+// rangeFetchCheck compares SubFetch with the whole blob over the boundary shapes: inside, up to the end, past the end,
+// starting at the end (empty answer), starting past the end and negative arguments (errors).  Returns "" or what is wrong.
+func rangeFetchCheck(sf blob.SubFetcher, br blob.Ref, want []byte) string {
+	n := int64(len(want))
+	type rg struct{ off, ln int64 }
+	rs := []rg{{0, n}, {n / 3, n / 3}, {n - 1, 1 << 20}, {0, n + 100}, {n, 10}, {n, 0}, {n + 1, 1}, {-1, 1}, {0, -1}, {n / 2, 1 << 30}}
+	for _, r := range rs {
+		if n == 0 && r.off == n-1 {
+			continue
+		}
+		rc, err := sf.SubFetch(context.Background(), br, r.off, r.ln)
+		if errors.Is(err, blob.ErrUnimplemented) {
+			return ""
+		}
+		var got []byte
+		if err == nil {
+			got, err = io.ReadAll(rc)
+			rc.Close()
+		}
+		wantErr := r.off < 0 || r.ln < 0 || r.off > n
+		if wantErr {
+			if err == nil {
+				return fmt.Sprintf("range fetch off=%d len=%d of a %d-byte blob answers %d bytes instead of an error", r.off, r.ln, n, len(got))
+			}
+			continue
+		}
+		if err != nil {
+			return fmt.Sprintf("range fetch off=%d len=%d of a %d-byte blob fails: %v", r.off, r.ln, n, err)
+		}
+		end := r.off + r.ln
+		if end > n {
+			end = n
+		}
+		if !bytes.Equal(got, want[r.off:end]) {
+			return fmt.Sprintf("range fetch off=%d len=%d of a %d-byte blob returns %d bytes which are not bytes [%d,%d) of the blob", r.off, r.ln, n, len(got), r.off, end)
+		}
+	}
+	return ""
+}
